@@ -647,7 +647,7 @@ package bbolt
 //@ func (*Cursor).seek
 //@   opaque
 //@   returns (key, value, flags)
-//@   ensures c.bucket == old(c.bucket)
+//@   ensures c.bucket == old(c.bucket) && len(c.stack) >= 1 && (c.stack[len(c.stack)-1].node != nil || c.stack[len(c.stack)-1].page != nil) && c.stack[len(c.stack)-1].index >= 0
 //@   modifies c.stack, all("elemRef.page"), all("elemRef.node"), all("elemRef.index"), all("TxStats.CursorCount")
 
 //@ func (*Cursor).node
@@ -724,14 +724,14 @@ package bbolt
 //@ func (*Cursor).first
 //@   opaque
 //@   returns (key, value, flags)
-//@   ensures c.bucket == old(c.bucket) && len(c.stack) >= 1
+//@   ensures c.bucket == old(c.bucket) && len(c.stack) >= 1 && (c.stack[len(c.stack)-1].node != nil || c.stack[len(c.stack)-1].page != nil)
 //@   ensures flags % 2 == 1 ==> value == nil
 //@   modifies c.stack, all("elemRef.page"), all("elemRef.node"), all("elemRef.index")
 
 //@ func (*Cursor).next
 //@   opaque
 //@   returns (key, value, flags)
-//@   ensures c.bucket == old(c.bucket) && len(c.stack) >= 1
+//@   ensures c.bucket == old(c.bucket) && len(c.stack) >= 1 && (c.stack[len(c.stack)-1].node != nil || c.stack[len(c.stack)-1].page != nil)
 //@   modifies c.stack, all("elemRef.page"), all("elemRef.node"), all("elemRef.index")
 
 //@ func (*Cursor).prev
@@ -746,6 +746,7 @@ package bbolt
 //@ func (*Cursor).prevElem
 //@   opaque
 //@   ensures c.bucket == old(c.bucket) && len(c.stack) >= 1
+//@   ensures c.stack[len(c.stack)-1].node != nil || c.stack[len(c.stack)-1].page != nil
 //@   ensures result ==> elemcount(c.stack[len(c.stack)-1]) > 0 && 0 <= c.stack[len(c.stack)-1].index && c.stack[len(c.stack)-1].index < elemcount(c.stack[len(c.stack)-1])
 //@   modifies c.stack, all("elemRef.page"), all("elemRef.node"), all("elemRef.index")
 
